@@ -174,10 +174,18 @@ def validate_executions(rep, pid, tier):
     rep.extra["aten_operator_histogram"] = dict(sorted(opnames.items()))
     rejset = set(rej)
     accepted = 0
+    inconclusive = []
     for name, a, b in execs:
         r = [k for k in range(a, b) if k in rejset]
         rep.nontriv(("exec", name))
-        if r:
+        if r and events[r[0]]["cat"] == "unknown":
+            # the FIRST rejection is an operator the vocabulary does not know: the structural argument is inconclusive for this
+            # execution (an unlisted operator may well be linear) - not a verdict; the numeric probes below (superposition and
+            # homogeneity over 40 orders of magnitude, T(0) = 0, slice independence) decide for it
+            inconclusive.append(name)
+            rep.drift.append("linearity acceptor inconclusive for '%s': operator %s is not in the vocabulary of harness/dispatch.py"
+                             % (name, events[r[0]]["op"]))
+        elif r:
             e = events[r[0]]
             rep.violation("execution '%s' is not a straight-line linear program: event %d (%s, category %s) is rejected by "
                           "the acceptor (argument storages %s)" % (name, r[0] - a, e["op"], e["cat"], e["args"]),
@@ -185,6 +193,7 @@ def validate_executions(rep, pid, tier):
         else:
             accepted += 1
     rep.count("executions_accepted", accepted)
+    rep.extra["executions_inconclusive_unknown_operator"] = inconclusive[:20]
     rep.count("executions_recorded", len(execs))
     if execs:
         name, a, b = execs[0]
@@ -269,11 +278,35 @@ def superposition(rep, pid, tier):
         fx, fy = f(x), f(y)
         zero = f(torch.zeros(shape))
         n += 1
+        bad = None
         for l, p, q, zz in zip(lhs, fx, fy, zero):
             scale = float((a * p).abs().max() + (b * q).abs().max()) + 1e-300
-            if float((l - (a * p + b * q)).abs().max()) > 1e-11 * scale or float(zz.abs().max()) != 0.0:
-                rep.violation("%s violates superposition or T(0)=0 on a real-valued probe" % z["name"],
-                              {"api": z["name"], "check": "superposition"})
+            if not float((l - (a * p + b * q)).abs().max()) <= 1e-11 * scale or float(zz.abs().max()) != 0.0:
+                bad = "superposition or T(0)=0 on a real-valued probe"
                 break
+        # homogeneity over 40 orders of magnitude, and per-slice amplitudes that differ by as much (a data-dependent
+        # "stabilisation" - normalise by the maximum, flush small values, add an epsilon - is linear to 1e-12 at unit scale)
+        if bad is None:
+            for s_ in (1e-20, 1e-8, 1e8, 1e20):
+                for l, p in zip(f(s_ * x), fx):
+                    ref = float(p.abs().max()) + 1e-300
+                    if not float((l / s_ - p).abs().max()) <= 1e-9 * ref:
+                        bad = "homogeneity T(s x) = s T(x) for s = %g (relative deviation %.3g)" % (s_, float((l / s_ - p).abs().max()) / ref)
+                        break
+                if bad:
+                    break
+        if bad is None:
+            # batch items of amplitude 1e-15 and 1e+12 in ONE call (outputs whose leading axis is the batch axis)
+            amp = torch.tensor([1e-15, 1e+12], dtype=x.dtype).reshape([2] + [1] * (len(shape) - 1))
+            for l, p in zip(f(amp * x), fx):
+                if p.dim() < 2 or p.shape[0] != shape[0]:
+                    continue
+                want = p * amp.reshape([2] + [1] * (p.dim() - 1))
+                ref = want.reshape(2, -1).abs().amax(dim=1).reshape([2] + [1] * (p.dim() - 1)) + 1e-300
+                if not float(((l - want).abs() / ref).max()) <= 1e-9:
+                    bad = "per-item scaling (batch items of amplitude 1e-15 and 1e+12 in one call): an item's result depends on the other's amplitude"
+                    break
+        if bad:
+            rep.violation("%s violates %s" % (z["name"], bad), {"api": z["name"], "check": "superposition"})
     rep.validated(n)
     rep.count("superposition_probes", n)
